@@ -229,7 +229,15 @@ fn all_names(ops: &[Op]) -> Vec<u32> {
 }
 
 fn rename_case(rng: &mut Rng) -> Case {
-    let (ops, stream) = gen_history(rng);
+    // half of the cases come from the streams with symmetric classes and parents over them: there the choice
+    // among group-compatible variants (shape computation) is where slot order could leak into the result
+    let want_sym = rng.chance(1, 2);
+    let (ops, stream) = loop {
+        let (ops, stream) = gen_history(rng);
+        if !want_sym || matches!(stream, "inherit" | "symred" | "deepsym" | "symmetry") {
+            break (ops, stream);
+        }
+    };
     let names = all_names(&ops);
     let n = names.len();
     // renamings chosen to stress internal order
